@@ -67,3 +67,23 @@ package ir
 //@   traverse remap kind ExpressionHandle rmh(handleMap, $)
 //@   except ExprAlias ExprPhi ExprCompose.Components
 //@   nopanic
+//
+// Inlining copies the callee's statements into the caller and must rewrite every
+// expression handle of every statement kind through the callee->caller map.
+// Emit ranges are half-open, so their End is mapped as map(End-1)+1 (excluded
+// here, specified separately). StmtCall is excluded: callees are flattened
+// bottom-up, so an inlined body holds no call (a requires of this contract).
+//
+//@ func remapInlineBlockHandles
+//@   mode bv
+//@   tags C13
+//@   pure
+//@   trusted
+//
+//@ func remapInlineStatementHandles
+//@   mode bv
+//@   tags C13
+//@   traverse remap stmt ExpressionHandle rmh(exprMap, $)
+//@   except Kind.StmtEmit.Range.End Kind.StmtCall
+//@   ensures [emit-end] is(stmt.Kind, StmtEmit) && stmt.Kind.(StmtEmit).Range.Start < stmt.Kind.(StmtEmit).Range.End && int(stmt.Kind.(StmtEmit).Range.End) - 1 < len(exprMap) && is(result.Kind, StmtEmit) ==> result.Kind.(StmtEmit).Range.End == exprMap[int(stmt.Kind.(StmtEmit).Range.End) - 1] + 1
+//@   nopanic
